@@ -325,7 +325,7 @@ def step (s : St) (w : List String) : St × String :=
       if skip > 8 then (s, "bad-op") else
       let bin := mode = "b"
       let fits := fun (e : List Byte) => if bin then e.length ≤ 255 else !e.contains sp
-      let valid := es.all fits && fits e2 && (es.head?.map (·.length)) != some 0
+      let valid := es.all fits && fits e2
       -- build, `skip` times next on the same path
       let built : Option Path := es.foldl (fun (acc : Option Path) e =>
         match acc with
@@ -376,8 +376,7 @@ def step (s : St) (w : List String) : St × String :=
           | _ => ([], p)
       let d := dels p (es.length + 2)
       let delTxt := ",".intercalate (d.1.map toString)
-      -- a first element without any character cannot be added (there is no storage yet): documented limit
-      let valid := (es.all fun e => if bin then e.length ≤ 255 else !e.contains sp) && (es.head?.map (·.length)) != some 0
+      let valid := (es.all fun e => if bin then e.length ≤ 255 else !e.contains sp)
       let lastOf := fun (p : Path) => if p.len = 0 then "none" else
         match pathLast p with
         | .ok (q, n) => fmtElems [(q.base.drop q.off).take n]
@@ -475,7 +474,7 @@ def step (s : St) (w : List String) : St × String :=
           | .ok (q, n) => n :: xdels q k
           | _ => []
       let delTxt := ",".intercalate ((xdels p (es.length + 2)).map toString)
-      let valid := (es.all fun e => !e.contains sp) && (es.head?.map (·.length)) != some 0
+      let valid := (es.all fun e => !e.contains sp)
       let specR := if valid then
           s!"added={String.join (es.map fun _ => "+")} elems={fmtElems es} del={",".intercalate (es.reverse.map fun e => toString e.length)}"
         else "*"
